@@ -1,4 +1,103 @@
-From ZV Require Import Base.Bytes Base.Res C34.Model.
-Theorem C34_tmp : escape [] = [].
-Proof. reflexivity. Qed.
-Print Assumptions C34_tmp.
+(* Properties/C34.v — introspection XML documents round-trip through zbus_xml's document model.
+   Only statements, each closed by [exact] of a lemma of C34/*.v, and their assumptions.
+
+   Vocabulary (C34/Model.v mirrors zbus_xml/src/lib.rs over quick-xml; C34/Spec.v is the introspection format):
+     xml                        infoset: Elem name attrs kids | Text s       (quick-xml's tokenizer is below this boundary)
+     to_tree d / of_node dec t  what the Serialize / Deserialize derives do through quick-xml; dec = how an accessed
+                                attribute value is decoded (identity on an infoset, unescape on raw text)
+     print t, to_writer d       the text quick-xml writes;  escape / unescape: attribute escaping and the reader's inverse
+     RNode tag t d              t represents d in the D-Bus introspection format (an absent optional has NO attribute)
+     wf_node d                  what the types guarantee: valid member / interface / property names, signatures that
+                                re-read from their own text (true of every parsed signature: property C06)
+     Known_C34 d                some optional of d is absent (node name, arg name, arg direction)
+   All theorems are parametric in the signature codec (sigT, sig_parse, sig_show) and the three name validators;
+   C34/Inst.v instantiates them with the C06 and C10 models, C34/Examples.v has concrete instances. *)
+From ZV Require Import Base.Bytes Base.Res C34.Model C34.Spec C34.Escape C34.Proofs C34.Examples.
+
+(* The property as stated, kept visible; REFUTED on this tree (C34_none_option_refuted). *)
+Definition C34_full_statement : Prop :=
+  forall sigT sig_parse sig_show vm vi vp (d : node sigT),
+    wf_node sigT sig_show sig_parse vm vi vp d ->
+    of_node sigT sig_parse vm vi vp (fun v => Ok v) (to_tree sigT sig_show d) = Ok d.
+
+(* --- escaping, full strength --- *)
+Theorem C34_unescape_escape : forall s : bytes, unescape (escape s) = Ok s.
+Proof. exact unescape_escape. Qed.
+Print Assumptions C34_unescape_escape.
+
+Theorem C34_unescape_never_panics : forall raw p, unescape raw <> Panic p.
+Proof. exact unescape_total. Qed.
+Print Assumptions C34_unescape_never_panics.
+
+Theorem C34_escape_is_quotable : forall s : bytes,
+  forallb (fun c => negb (beq c """"%byte) && negb (beq c "<"%byte)) (escape s) = true.
+Proof. exact escape_clean. Qed.
+Print Assumptions C34_escape_is_quotable.
+
+(* --- the reader, full strength: it returns d on every infoset that represents d (any re-coding enc of the
+       values that dec inverts: identity, or escape / unescape) --- *)
+Theorem C34_reader_correct :
+  forall sigT sig_parse sig_show vm vi vp (enc : bytes -> bytes) (dec : bytes -> res xerr bytes),
+    (forall s, dec (enc s) = Ok s) ->
+    forall (d : node sigT) tag t,
+      wf_node sigT sig_show sig_parse vm vi vp d -> RNode sigT sig_show tag t d ->
+      of_node sigT sig_parse vm vi vp dec (enc_tree enc t) = Ok d.
+Proof. exact reader_correct. Qed.
+Print Assumptions C34_reader_correct.
+
+(* --- the writer: its infoset represents d when no optional is absent --- *)
+Theorem C34_writer_conforms_partial :
+  forall sigT sig_show (d : node sigT) tag, node_none sigT d = false -> RNode sigT sig_show tag (t_node sigT sig_show tag d) d.
+Proof. exact writer_conforms. Qed.
+Print Assumptions C34_writer_conforms_partial.
+
+(* --- the round trip, on infosets and on text --- *)
+Theorem C34_roundtrip_partial :
+  forall sigT sig_parse sig_show vm vi vp (d : node sigT),
+    wf_node sigT sig_show sig_parse vm vi vp d -> ~ Known_C34 sigT d ->
+    of_node sigT sig_parse vm vi vp (fun v => Ok v) (to_tree sigT sig_show d) = Ok d.
+Proof. exact roundtrip_partial. Qed.
+Print Assumptions C34_roundtrip_partial.
+
+(* quick-xml's tokenizer by contract: it reads back, values still escaped, what the raw printer wrote for a tree
+   with alphanumeric names, quote-free values and no text *)
+Theorem C34_text_roundtrip_partial :
+  forall sigT sig_parse sig_show vm vi vp (tokenize : bytes -> option xml),
+    (forall r, printable r = true -> tokenize (print_raw r) = Some r) ->
+    forall d : node sigT,
+      wf_node sigT sig_show sig_parse vm vi vp d -> ~ Known_C34 sigT d ->
+      from_str sigT sig_parse vm vi vp tokenize (to_writer sigT sig_show d) = Ok d.
+Proof. exact text_roundtrip_partial. Qed.
+Print Assumptions C34_text_roundtrip_partial.
+
+(* every document the reader returns is well formed, given C06's "a parsed signature re-reads from its text" *)
+Theorem C34_parsed_documents_wf :
+  forall sigT sig_parse sig_show vm vi vp dec,
+    (forall b s, sig_parse b = Some s -> sig_parse (sig_show s) = Some s) ->
+    forall t (d : node sigT), of_node sigT sig_parse vm vi vp dec t = Ok d -> wf_node sigT sig_show sig_parse vm vi vp d.
+Proof. exact parsed_wf. Qed.
+Print Assumptions C34_parsed_documents_wf.
+
+(* --- known finding: an absent optional is written as an empty attribute --- *)
+Theorem C34_none_option_refuted :
+  forall sigT sig_parse sig_show vm vi vp,
+    exists d : node sigT, wf_node sigT sig_show sig_parse vm vi vp d /\
+      of_node sigT sig_parse vm vi vp (fun v => Ok v) (to_tree sigT sig_show d) <> Ok d.
+Proof. exact none_option_refuted. Qed.
+Print Assumptions C34_none_option_refuted.
+
+Theorem C34_none_name_witness :
+  forall sigT sig_parse sig_show vm vi vp,
+    wf_node sigT sig_show sig_parse vm vi vp (d_noname sigT) /\
+    to_tree sigT sig_show (d_noname sigT) = Elem (B "Node") [(B "name", [])] [] /\
+    of_node sigT sig_parse vm vi vp (fun v => Ok v) (to_tree sigT sig_show (d_noname sigT)) = Ok (Node sigT (Some []) [] []) /\
+    Known_C34 sigT (d_noname sigT).
+Proof. exact none_name_witness. Qed.
+Print Assumptions C34_none_name_witness.
+
+(* a signal argument without direction: zbus_xml rejects the document it has just written *)
+Theorem C34_none_direction_rejected :
+  forall sigT sig_parse sig_show vm vi vp m s,
+    of_node sigT sig_parse vm vi vp (fun v => Ok v) (to_tree sigT sig_show (d_nodir sigT m s)) = Err EXml.
+Proof. exact none_direction_rejected. Qed.
+Print Assumptions C34_none_direction_rejected.
